@@ -316,6 +316,98 @@ def fixed_provider(sig, length):
     return _fixed_sp(sig, length)
 
 
+_cli = None
+
+
+def cli():
+    """`nxpcrypto` in process (click test runner)."""
+    global _cli
+    if _cli is None:
+        from click.testing import CliRunner
+        from spsdk.apps import nxpcrypto
+
+        _cli = (CliRunner(), nxpcrypto.main)
+    return _cli
+
+
+_cli_n = [0]
+
+
+def cli_file(suffix, data=None):
+    d = os.path.join(scratch(), f"c08-cli-{os.getpid()}")
+    os.makedirs(d, exist_ok=True)
+    _cli_n[0] += 1
+    path = os.path.join(d, f"f{_cli_n[0]}.{suffix}")
+    if data is not None:
+        with open(path, "wb") as f:
+            f.write(data)
+    return path
+
+
+def run_cli(args):
+    """-> (ok, output, error text)"""
+    runner, main = cli()
+    r = runner.invoke(main, args)
+    err = None
+    if r.exit_code != 0:
+        err = f"exit {r.exit_code}: {type(r.exception).__name__ if r.exception else ''} {str(r.exception)[:120] if r.exception else r.output[-120:]}"
+    return r.exit_code == 0, r.output, err
+
+
+def cli_rm(*paths):
+    for p in paths:
+        try:
+            os.remove(p)
+        except OSError:
+            pass
+
+
+SIGMEMO = {}
+
+
+def cli_sign(key, P, msg, r_):
+    """nxpcrypto signature create (-> InteractivePlainFileSP -> SignatureProvider.get_signature)."""
+    S = _c()["S"]
+    enc_key = r_.random() < 0.5
+    prot = S.BestAvailableEncryption(PW.encode("utf-8")) if enc_key else S.NoEncryption()
+    kf = cli_file("pem", key.priv.private_bytes(S.Encoding.PEM, S.PrivateFormat.PKCS8, prot))
+    df, sf = cli_file("bin", msg), cli_file("sig")
+    args = ["signature", "create", "-k", kf, "-i", df, "-o", sf]
+    if enc_key:
+        args += ["-p", PW]
+    if P["hash"] != "default":
+        args += ["-a", P["hash"]]
+    if P["pad"] == "pss":
+        args += ["-pp"]
+    if key.kt == "ecc":
+        args += ["-e", "NXP" if P["enc"] == "raw" else "DER"]
+    ok, _, err = run_cli(args)
+    sig = open(sf, "rb").read() if ok and os.path.exists(sf) else None
+    cli_rm(kf, df, sf)
+    return sig, (None if sig is not None else f"refused:{err}")
+
+
+def cli_verify(key, Q, sig, msg, r_):
+    """nxpcrypto signature verify with the public key in a file (PEM, DER or, for ECC, raw X||Y)."""
+    fmt = r_.choice(["PEM", "DER", "NXP"] if key.kt == "ecc" else ["PEM", "DER"])
+    kf = cli_file(fmt.lower(), indep_export(key.priv.public_key(), "pub", key.kt, fmt, "none", 0))
+    df, sf = cli_file("bin", msg), cli_file("sig", sig)
+    args = ["signature", "verify", "-k", kf, "-i", df, "-s", sf]
+    if Q["hash"] != "default":
+        args += ["-a", Q["hash"]]
+    if Q["pad"] == "pss":
+        args += ["-pp"]
+    ok, out, err = run_cli(args)
+    cli_rm(kf, df, sf)
+    if not ok:
+        return "refused", err
+    if "IS NOT matching" in out:
+        return "false", None
+    if "IS matching" in out:
+        return "true", None
+    return "refused", f"unexpected output {out[-80:]!r}"
+
+
 def sp_wrap(cobj, kk, kt):
     K = sp()["K"]
     cls = {("priv", "rsa"): K.PrivateKeyRsa, ("priv", "ecc"): K.PrivateKeyEcc, ("pub", "rsa"): K.PublicKeyRsa, ("pub", "ecc"): K.PublicKeyEcc}[(kk, kt)]
@@ -499,12 +591,12 @@ def replay_flow(job):
     r_ = rng(PROP, "flow", json.dumps(beh, sort_keys=True), key.name, salt)
     dflt = measure_default(key)
     ev = [{"a": "Key", "prof": key.prof, "xl": key.xl, "yl": key.yl}]
-    trace = {"flow": beh["flow"], "kt": kt, "size": size, "dflt": dflt, "ev": ev, "x": {"key": key.name, "salt": salt, "beh": beh, "notes": []}}
+    trace = {"flow": beh["flow"], "kt": kt, "size": size, "kk0": beh["kk0"], "dflt": dflt, "ev": ev, "x": {"key": key.name, "salt": salt, "beh": beh, "notes": []}}
     notes = trace["x"]["notes"]
     c = (size + 7) // 8
     # ---- state of the replay
-    kk = "priv"
-    cur = ("crypt", key.priv)  # party that holds the current object, object
+    kk = beh["kk0"]
+    cur = ("crypt", key.priv if kk == "priv" else key.priv.public_key())  # party that holds the current object, object
     blob = None
     msg = bytes(r_.randrange(256) for _ in range(r_.choice([0, 1, 7, 32, 55, 64, 100, 300])))
     vmsg, vkey = msg, key
@@ -531,6 +623,13 @@ def replay_flow(job):
                     data, e = outcome(lambda: o.export(encoding=ENC[fmt], exp_length=4))
                 else:
                     data, e = outcome(lambda: o.export(encoding=ENC[fmt]))
+            elif by == "cli":
+                inf = cli_file("pem", indep_export(as_crypt(), kk, kt, "PEM", "none", 0))
+                outf = cli_file(fmt.lower())
+                ok_, _, err = run_cli(["key", "convert", "-e", "RAW" if fmt == "NXP" else fmt, "-i", inf, "-o", outf])
+                data = open(outf, "rb").read() if ok_ and os.path.exists(outf) else None
+                e = None if data is not None else f"refused:{err}"
+                cli_rm(inf, outf)
             else:
                 try:
                     data, e = indep_export(as_crypt(), kk, kt, fmt, pwd, el), None
@@ -559,7 +658,30 @@ def replay_flow(job):
             data, fmt, pwd = blob
             okk = kk
             password = {"pw": PW, "none": None, "wrong": WRONG}[given]
-            if by == "spsdk":
+            if entry == "cli":
+                inf, outf = cli_file(fmt.lower(), data), cli_file("pem")
+                ok_, _, err = run_cli(["key", "convert", "-e", "PEM", "-i", inf, "-o", outf])
+                res, got = "refused", None
+                if ok_ and os.path.exists(outf):
+                    try:
+                        got = indep_parse(open(outf, "rb").read(), kk, kt, size, "PEM", None)
+                        res = "same" if numbers_of(got, kk) == (key.privnum if kk == "priv" else key.pubnum) else "wrong"
+                    except Exception as x:  # noqa: BLE001
+                        res = "wrong"
+                        notes.append(f"output of key convert: {x!r}")
+                    if res == "same" and kk == "pub":  # and the command line agrees that it is the same key
+                        ref = cli_file("pem", indep_export(key.priv.public_key(), "pub", kt, "PEM", "none", 0))
+                        ok2, out2, err2 = run_cli(["key", "verify", "-k1", inf, "-k2", ref])
+                        if not ok2 or "Keys match" not in out2:
+                            res = "wrong"
+                            notes.append(f"key verify: {err2 or out2[-80:]}")
+                        cli_rm(ref)
+                else:
+                    notes.append(f"parse: {err}")
+                cli_rm(inf, outf)
+                if res == "same":
+                    cur = ("crypt", got)
+            elif by == "spsdk":
                 if entry == "typed":
                     cls = {("priv", "rsa"): K.PrivateKeyRsa, ("priv", "ecc"): K.PrivateKeyEcc, ("pub", "rsa"): K.PublicKeyRsa, ("pub", "ecc"): K.PublicKeyEcc}[(kk, kt)]
                     fn = (lambda: cls.parse(data, password=password)) if kk == "priv" else (lambda: cls.parse(data))
@@ -629,6 +751,13 @@ def replay_flow(job):
                     sig, e = outcome(lambda: prv.sign(data, algorithm=ALG[P["hash"]], pss_padding=P["pad"] == "pss", prehashed=P["pre"]))
                 else:
                     sig, e = outcome(lambda: prv.sign(data, algorithm=ALG[P["hash"]], der_format=P["enc"] == "der", prehashed=P["pre"]))
+            elif by == "cli":
+                memo = SIGMEMO.get((key.name, json.dumps(P, sort_keys=True)))
+                if memo is not None:
+                    msg, sig, e = bytes.fromhex(memo["msg"]), bytes.fromhex(memo["sig"]) if memo["sig"] is not None else None, memo["e"]
+                    vmsg = msg
+                else:
+                    sig, e = cli_sign(key, P, msg, r_)
             else:
                 sig, e = indep_sign(key, P, h, msg), None
             enc = P["enc"]
@@ -707,6 +836,10 @@ def replay_flow(job):
                 res = ("true" if v is True else "false" if v is False else "badtype") if e is None else e.split(":")[0]
                 if e:
                     notes.append(f"verify: {e}")
+            elif by == "cli":
+                res, err = cli_verify(vkey, Q, sig, vmsg, r_)
+                if err:
+                    notes.append(f"verify: {err}")
             elif by == "indep":
                 res = indep_verify(vkey, Q, h, sig, enc, vmsg)
             else:
@@ -768,7 +901,7 @@ def flow_key(tr, matched):
         return f"C08/{kts}/to-public/wrong"
     if a == "Sign":
         P = e["P"]
-        return f"C08/{kts}/sign/by-{e['by']}/{P['hash']}-{P['pad']}-pre={P['pre']}-{P['enc']}/ok={e['ok']},len={e['sigLen']}"
+        return f"C08/{tr['kt']}/sign/by-{e['by']}/{P['hash']}-{P['pad']}-{P['enc']}/ok={e['ok']}"
     if a == "Reencode":
         c = (tr["size"] + 7) // 8
         return f"C08/{kts}/reencode/{e['from']}-to-{e['to']}/via-{e['via']}/{derlen_class(c, e['derLen'])}/ok={e['ok']}"
@@ -776,8 +909,9 @@ def flow_key(tr, matched):
         sign = [p for p in ev[:matched] if p["a"] == "Sign"][-1]
         tam = "+".join(p["what"] for p in ev[:matched] if p["a"] == "Tamper") or "intact"
         P, Q = sign["P"], e["Q"]
-        return (f"C08/{kts}/verify/signed-by-{sign['by']}:{P['hash']}-{P['pad']}-pre={P['pre']}-{P['enc']}/"
-                f"verified-by-{e['by']}:{Q['hash']}-{Q['pad']}-pre={Q['pre']}/{tam}/{e['res']}")
+        # presentation parameters (pre-hashed, key size) are in the witness, not in the key
+        return (f"C08/{tr['kt']}/verify/signed-by-{sign['by']}:{P['hash']}-{P['pad']}-{P['enc']}/"
+                f"verified-by-{e['by']}:{Q['hash']}-{Q['pad']}/{tam}/{e['res']}")
     return f"C08/{kts}/{a}"
 
 
@@ -800,13 +934,13 @@ def gen(flow, depth, simulate=None, sim_depth=None, menu="any"):
 
 def canary(v):
     key = pool()[("ecc", 256)][0]
-    good_flow = replay_flow({"beh": {"flow": "sig", "kt": "ecc", "size": 256, "hist": [
+    good_flow = replay_flow({"beh": {"flow": "sig", "kt": "ecc", "size": 256, "kk0": "priv", "hist": [
         {"a": "Sign", "by": "indep", "P": {"hash": "sha256", "pad": "ecdsa", "pre": False, "enc": "der"}},
         {"a": "Reencode", "to": "raw", "via": "indep"},
         {"a": "Verify", "by": "pure", "Q": {"hash": "sha256", "pad": "ecdsa", "pre": True}},
         {"a": "Tamper", "what": "sigbit"},
         {"a": "Verify", "by": "indep", "Q": {"hash": "sha256", "pad": "ecdsa", "pre": False}}]}, "key": 0, "salt": 0})
-    good_key = replay_flow({"beh": {"flow": "key", "kt": "ecc", "size": 256, "hist": [
+    good_key = replay_flow({"beh": {"flow": "key", "kt": "ecc", "size": 256, "kk0": "priv", "hist": [
         {"a": "Export", "fmt": "PEM", "pwd": "pw", "el": 0, "by": "indep"},
         {"a": "Parse", "entry": "typed", "given": "none", "by": "indep", "res": "refused"},
         {"a": "Parse", "entry": "typed", "given": "pw", "by": "indep", "res": "same"},
@@ -892,13 +1026,27 @@ class Bg:
             t.join()
 
 
+def _memo_job(x):
+    """One RSA signature made by the command line for (key, parameter set): loading an RSA private key costs up to 0.3 s, so the
+    signature is made once and every behaviour that starts with this Sign step replays it (it IS what the CLI produced)."""
+    ki, kt, size, pj = x
+    key = pool()[(kt, size)][ki]
+    P = json.loads(pj)
+    r_ = rng(PROP, "climemo", key.name, pj)
+    msg = bytes(r_.randrange(256) for _ in range(r_.choice([1, 32, 100, 257])))
+    sig, e = cli_sign(key, P, msg, r_)
+    return (key.name, pj), {"msg": msg.hex(), "sig": sig.hex() if sig is not None else None, "e": e}
+
+
 def _exec(job):
+    import time
+
     kind, arg = job
-    if kind == "sigcodec":
-        return exec_sigcodec(arg)
-    if kind == "sigprof":
-        return exec_sigprof(arg)
-    return replay_flow(arg)
+    t0 = time.process_time()
+    res = exec_sigcodec(arg) if kind == "sigcodec" else exec_sigprof(arg) if kind == "sigprof" else replay_flow(arg)
+    if res is not None:
+        res["cpu"] = time.process_time() - t0
+    return res
 
 
 def run(tier):
@@ -908,6 +1056,7 @@ def run(tier):
     r = rng(PROP)
     quick = tier == "quick"
     pool()
+    cli()
     from lib.common import Timer
 
     tm = Timer()
@@ -920,14 +1069,19 @@ def run(tier):
     bg.start("mc1", tlc.mc, "C08", "KeyCodecMC", "KeyCodecMC.cfg", workers=1, coverage=False, heap="6g", timeout=900)
     bg.start("mc2", tlc.mc, "C08", "KeyFlow", "KeyFlowMC.cfg", workers=2, coverage=True, timeout=900)
     bg.start("key/2", gen, "key", 2)
-    bg.start("key/3", gen, "key", 3)
-    bg.start("key/sim", gen, "key", 7, simulate=f"num={150 if quick else 3000}", sim_depth=9)
     bg.start("sig/2", gen, "sig", 2)
-    bg.start("sig/3-mid", gen, "sig", 3, menu="mid")
-    bg.start("sig/sim", gen, "sig", 8, simulate=f"num={500 if quick else 8000}", sim_depth=10)
-    if not quick:
+    if quick:  # deeper behaviours are drawn by simulation; the thorough tier enumerates them
+        bg.start("key/sim3", gen, "key", 3, simulate="num=400", sim_depth=5)
+        bg.start("key/sim", gen, "key", 7, simulate="num=80", sim_depth=9)
+        bg.start("sig/sim3-mid", gen, "sig", 3, simulate="num=2500", sim_depth=5, menu="mid")
+        bg.start("sig/sim", gen, "sig", 8, simulate="num=400", sim_depth=10)
+    else:
+        bg.start("key/3", gen, "key", 3)
         bg.start("key/4", gen, "key", 4)
+        bg.start("key/sim", gen, "key", 7, simulate="num=3000", sim_depth=9)
+        bg.start("sig/3-mid", gen, "sig", 3, menu="mid")
         bg.start("sig/3", gen, "sig", 3)
+        bg.start("sig/sim", gen, "sig", 8, simulate="num=8000", sim_depth=10)
     canary(v)  # meanwhile, in the main thread (no fork)
     lap("canary")
     bg.join_all()
@@ -941,36 +1095,42 @@ def run(tier):
     lap(f"MC: length algebra {mc1.distinct} cases, flows {mc2.distinct} states / {mc2.generated} transitions")
 
     # ---- the work list
-    if quick:  # valid-signature lane: every profile whose DER length is some raw length or lies in the own window + a sample
-        idx = [i for i, c in enumerate(cases) if c["collides"] or c["inwin"]]
-        rest = [i for i in range(len(cases)) if not (cases[i]["collides"] or cases[i]["inwin"])]
-        idx += r.sample(rest, 300)
+    if quick:  # valid-signature lane: every profile whose DER length is the own raw length or lies in the own window + samples
+        own = [i for i, c in enumerate(cases) if c["der"] == c["raw"] or c["inwin"]]
+        coll = [i for i, c in enumerate(cases) if c["collides"] and c["der"] != c["raw"]]
+        rest = [i for i, c in enumerate(cases) if not (c["collides"] or c["inwin"])]
+        idx = own + r.sample(coll, 100) + r.sample(rest, 150)
     else:
         idx = list(range(len(cases)))
     jobs = []
 
-    def add(name, keys_per_beh, sample=None, rsa_keys=None):
+    def add(name, keys_per_beh, sample=None, rsa_keys=None, skew=False, allpub=False):
         behs, g = bg.get(name)
         v.add_mc(g)
+        if skew:  # parsing an RSA private key costs 0.05 / 0.13 / 0.3 s (key validation): the quick tier takes fewer of the big ones
+            w = {2048: 1.0, 3072: 0.5, 4096: 0.3}
+            behs = [b for b in behs if b["kt"] == "ecc" or b["kk0"] == "pub" or r.random() < w[b["size"]]]
         if sample is not None and len(behs) > sample:
             behs = r.sample(behs, sample)
         for b in behs:
             ks = pool()[(b["kt"], b["size"])]
             n = keys_per_beh if b["kt"] == "ecc" or rsa_keys is None else rsa_keys
+            if allpub and b["kk0"] == "pub":
+                n = None  # public keys are cheap: every profile of the pool
             pick = range(len(ks)) if n is None else r.sample(range(len(ks)), min(n, len(ks)))
             for ki in pick:
                 jobs.append({"beh": b, "key": ki, "salt": r.randrange(1 << 16), "label": name})
 
     if quick:
-        add("key/2", 3, rsa_keys=1)
-        add("key/3", 1, sample=600)
-        add("key/sim", 1)
-        add("sig/2", 1)
-        add("sig/3-mid", 1, sample=3000)
+        add("key/2", 3, rsa_keys=1, allpub=True, skew=True)
+        add("key/sim3", 1, skew=True)
+        add("key/sim", 1, skew=True)
+        add("sig/2", 1, sample=5000)
+        add("sig/sim3-mid", 1)
         add("sig/sim", 1)
     else:
         add("key/2", None)
-        add("key/3", 3, rsa_keys=1)
+        add("key/3", 3, rsa_keys=1, allpub=True)
         add("key/4", 1, sample=12000)
         add("key/sim", 1)
         add("sig/2", 4, rsa_keys=2)
@@ -984,6 +1144,11 @@ def run(tier):
     jobs = [j for _, j in fl]
 
     # ================= phase B: the real code executes (processes; no TLC thread alive)
+    need = sorted({(j["key"], j["beh"]["kt"], j["beh"]["size"], json.dumps(j["beh"]["hist"][0]["P"], sort_keys=True))
+                   for j in jobs if j["beh"]["flow"] == "sig" and j["beh"]["kt"] == "rsa" and j["beh"]["hist"][0]["by"] == "cli"})
+    for k, m in pmap(_memo_job, need, chunksize=1):
+        SIGMEMO[k] = m
+    lap(f"command-line RSA signatures made once: {len(need)}")
     out = pmap(_exec, work + fl, chunksize=32)
     obs = out[: len(cases)]
     obs2 = [o for o in out[len(cases): len(work)] if o is not None]
@@ -991,6 +1156,11 @@ def run(tier):
     del out
     allobs = obs + obs2
     lap(f"executed: codec lane {len(obs)}, valid-signature lane {len(obs2)}, flows {len(traces)}")
+    cpu = {"codec": sum(o["cpu"] for o in obs), "valid-signature": sum(o["cpu"] for o in obs2)}
+    for t, j in zip(traces, jobs):
+        cpu[j["label"]] = cpu.get(j["label"], 0.0) + t["cpu"]
+    v.extra["cpu_s_by_lane"] = {k: round(x, 1) for k, x in cpu.items()}
+    say(f"[C08]           CPU seconds by lane: {v.extra['cpu_s_by_lane']}")
     for i, o in enumerate(allobs):
         o["id"] = i
     for i, t in enumerate(traces):
@@ -1007,11 +1177,11 @@ def run(tier):
     v.sample({k: obs[12345][k] for k in ("kind", "a", "o")})
     v.sample({k: obs2[len(obs2) // 2][k] for k in ("kind", "a", "o")})
     for i in (3, len(traces) // 2, len(traces) - 5):
-        v.sample({k: traces[i][k] for k in ("flow", "kt", "size", "dflt", "ev")})
+        v.sample({k: traces[i][k] for k in ("flow", "kt", "size", "kk0", "dflt", "ev")})
 
     # ================= phase C: TLC decides
     slim1 = [{k: o[k] for k in ("id", "kind", "a", "o")} for o in allobs]
-    slim2 = [{k: t[k] for k in ("id", "flow", "kt", "size", "dflt", "ev")} for t in traces]
+    slim2 = [{k: t[k] for k in ("id", "flow", "kt", "size", "kk0", "dflt", "ev")} for t in traces]
     bg = Bg()
     bg.start("tv1", tlc.tv, "C08", "KeyCodecTrace", slim1, heap="8g", timeout=1800)
     chunk = 40000
@@ -1095,7 +1265,7 @@ def replay(path):
     if w["lane"] == "flow":
         t = replay_flow(w["job"])
         t["id"] = 0
-        slim = {k: t[k] for k in ("id", "flow", "kt", "size", "dflt", "ev")}
+        slim = {k: t[k] for k in ("id", "flow", "kt", "size", "kk0", "dflt", "ev")}
         rej, _ = tlc.tv("C08", "KeyFlowTrace", [slim])
         say(json.dumps(slim)[:3000])
         say("notes: " + "; ".join(t["x"]["notes"]))
